@@ -130,7 +130,9 @@ class FakeWriter:
             raise exc
 
     def is_closing(self):
-        return self.conn.client_closed
+        # asyncio's transports report closing once close() was called *or* the transport was lost through a fatal error
+        # (peer reset, failed send: _fatal_error -> _force_close sets _closing); a clean EOF from the peer leaves it open
+        return self.conn.client_closed or self.conn.transport_lost
 
     def get_extra_info(self, name, default=None):
         return default
@@ -151,6 +153,8 @@ class Conn:
         self.opened_at = net.loop.time()
         self.closed_at = None
         self.wait_closed_exc = None
+        self.transport_lost = False   # fatal transport error seen (peer reset / failed send)
+        self.lost_exc = None
 
     def client_close(self):
         if not self.client_closed:
@@ -176,7 +180,9 @@ class Conn:
     def reset(self, exc=None):
         if not self.peer_closed:
             self.peer_closed = True
-            self.reader.set_exception(exc or ConnectionResetError("peer reset"))
+            self.transport_lost = True
+            self.lost_exc = exc or ConnectionResetError("peer reset")
+            self.reader.set_exception(self.lost_exc)
 
     def written(self):
         """All bytes the client wrote on this connection, concatenated."""
@@ -282,10 +288,15 @@ class FakeNet:
 
     async def _on_drain(self, conn):
         conn.drains += 1
+        if conn.transport_lost and not conn.client_closed:
+            # StreamWriter.drain() re-raises the reader's exception / reports the lost connection
+            raise conn.lost_exc or ConnectionResetError("Connection lost")
         if self.on_drain:
             r = self.on_drain(conn, conn.drains)
             if r is not None:
                 if isinstance(r, BaseException):
+                    conn.transport_lost = True          # a failed send is a fatal transport error
+                    conn.lost_exc = r
                     raise r
                 await asyncio.sleep(r)
 
